@@ -10,16 +10,22 @@ def _replace(__obj, **changes):
 
     # Fix https://bugs.python.org/issue36470
     assert is_dataclass(__obj)
+    init_vars = set()
     for name, field in getattr(__obj, _FIELDS).items():
-        if field._field_type == _FIELD_INITVAR and name not in changes:
-            if field.default is not MISSING:
+        if field._field_type == _FIELD_INITVAR:
+            init_vars.add(name)
+            if name in changes:
+                pass
+            elif field.default is not MISSING:
                 changes[name] = field.default
             elif field.default_factory is not MISSING:
                 changes[name] = field.default_factory()
 
     result = replace_(__obj, **changes)
     if hasattr(__obj, FIELDS_SET_ATTR):
-        set_fields(result, *fields_set(__obj), *changes, overwrite=True)
+        # InitVar are constructor arguments, not fields: never part of the fields set
+        changed = (name for name in changes if name not in init_vars)
+        set_fields(result, *fields_set(__obj), *changed, overwrite=True)
     return result
 
 
